@@ -12,6 +12,11 @@
       procedure still answers with a result row on every branch
   R5  driver selections: schedulers pick non-always-run Ready jobs only with cancelled = 0 under "group not cancelled"; always-run jobs
       are picked regardless; cancellers pick only always_run = 0 jobs, either from cancelled groups or with cancelled = 1
+  R7  "answered normally under any combination of cancelled groups": every query of the scheduling / creating / starting procedures
+      (and of the functions they call) that MySQL requires to yield one value (RETURN (SELECT ..), SELECT .. INTO, scalar sub-query) and
+      whose rows range over cancellation marks yields at most one row however many groups of one ancestor chain are cancelled -
+      functional-dependency closure from the declared table keys (engines/sqlcard.py); the writer side is checked too: the cancel
+      procedure admits a mark on a group whose descendant already carries one, so two marks on one chain do occur
 Not decided: histories / interleavings.
 """
 from __future__ import annotations
@@ -21,6 +26,7 @@ import itertools
 from typing import Dict, List, Optional, Tuple
 
 from engines import pyfacts as pf
+from engines import sqlcard as sc
 from engines import sqlfront as sf
 from engines import sqlrules as sr
 from engines.common import AnalysisError, Ctx
@@ -484,6 +490,96 @@ def r6(ctx: Ctx, prog: sf.SqlProgram) -> None:
                     changed = True
 
 
+# ------------------------------------------------------------------------------------------------------------------------------------
+# R7: one value under any combination of cancelled groups
+REQUEST_PROCEDURES = ('schedule_job', 'mark_job_started', 'mark_job_creating')
+CANCEL_TABLE = 'job_groups_cancelled'
+
+
+def _called_functions(prog: sf.SqlProgram, r: sf.Routine) -> List[str]:
+    fns = {n.lower(): n for n, x in prog.routines.items() if x.kind == 'function'}
+    out = []
+    for n in sc.walk(r.ast.body):
+        if n.kind == 'func' and n.name.lower() in fns and fns[n.name.lower()] not in out:
+            out.append(fns[n.name.lower()])
+    return out
+
+
+def _marks_can_stack(prog: sf.SqlProgram) -> Tuple[Optional[bool], str]:
+    """Can two groups of ONE ancestor chain both carry a cancellation mark?  True when the only test in front of the INSERT of a mark
+    is the self-and-ancestors question about the group being cancelled (so cancelling a parent after its child adds a second mark on
+    the child's chain) and nothing deletes the marks of descendants; None when the writers have another shape."""
+    writers = []
+    for name, r in prog.routines.items():
+        for st, guard in sf.guarded_statements(r.ast.body):
+            for t, how in sf.written_tables(st):
+                if t.lower() == CANCEL_TABLE:
+                    writers.append((name, r, st, guard, how))
+    ins = [w for w in writers if w[2].kind == 'insert']
+    if not ins or any(w[2].kind != 'insert' for w in writers):
+        return None, f'writers of {CANCEL_TABLE}: {[(w[0], w[2].kind) for w in writers]} (an UPDATE / DELETE of marks is not modelled)'
+    for name, r, st, guard, _ in ins:
+        # the guard may mention only variables assigned from is_job_group_cancelled(<own batch>, <own group>) / is_batch_cancelled
+        gvars = {c.parts[-1].lower() for g, _ in guard for c in sf.cols_in(g)}
+        for v in gvars:
+            defs = [d for d in sf.all_statements(r.ast.body) if d.kind == 'select' and d.into and v in [t.parts[0].lower() for t in d.into]]
+            for d in defs:
+                i = [t.parts[0].lower() for t in d.into].index(v)
+                col = d.cols[i][0] if i < len(d.cols) else None
+                if not (isinstance(col, N) and col.kind == 'func' and col.name.lower() in ('is_job_group_cancelled', 'is_batch_cancelled')):
+                    # any other test (e.g. on descendants) could prevent stacking: not decided
+                    if isinstance(col, N) and CANCEL_TABLE in text(col).lower():
+                        return None, f'{name}: the mark is guarded by `{text(col)[:80]}`'
+    fn = prog.routines.get('is_job_group_cancelled')
+    if fn is None:
+        return None, 'is_job_group_cancelled vanished'
+    walks = [n for n in sc.walk(fn.ast.body) if n.kind == 'select' and CANCEL_TABLE in [t.lower() for t in sf.table_names(n.frm)]]
+    if len(walks) != 1:
+        return None, 'is_job_group_cancelled: shape not recognised'
+    w = sr.ancestor_walk(walks[0])
+    if w is None:
+        return None, 'is_job_group_cancelled is not the self-and-ancestors walk'
+    return True, ('cancel_job_group marks a group unless the group ITSELF or one of its ANCESTORS is marked; a descendant that was cancelled before keeps its mark, '
+                  'so after "cancel sub-group g; cancel its parent (or the batch)" the chain of g carries two marks')
+
+
+def r7(ctx: Ctx, prog: sf.SqlProgram) -> None:
+    keys = sc.table_keys()
+    routines: List[sf.Routine] = []
+    for name in REQUEST_PROCEDURES:
+        r = prog.routine(name)
+        routines.append(r)
+        for f in _called_functions(prog, r):
+            if prog.routines[f] not in routines:
+                routines.append(prog.routines[f])
+    for f in ('is_job_cancelled', 'is_job_group_cancelled', 'is_batch_cancelled'):
+        if prog.routine(f) not in routines:
+            routines.append(prog.routine(f))
+    stack: Optional[Tuple[Optional[bool], str]] = None
+    for r in routines:
+        scope = sc.Scope(sc.routine_consts(r), prog.tables)
+        for u in sc.scalar_uses(r):
+            over_marks = any(n.kind == 'table' and n.name.lower() == CANCEL_TABLE for n in sc.walk(u.sel))
+            cons = f'sql::{r.name}::{u.how}::{text(u.sel)[:70]}'
+            v = sc.at_most_one(u.sel, scope, keys)
+            if not over_marks:
+                ctx.ok('R7', cons, {'cardinality': v[0], 'ranges over cancellation marks': False})
+                continue
+            if v[0] == 'one':
+                ctx.ok('R7', cons, {'cardinality': 'at most one row', 'why': v[1]})
+                continue
+            ctx.need(v[0] == 'many', f'{r.name}: cannot bound the rows of `{text(u.sel)[:80]}`: {v[1] if len(v) > 1 else v}')
+            _, alias, table, free = v
+            if stack is None:
+                stack = _marks_can_stack(prog)
+            ctx.need(stack[0] is not None, f'{r.name}: `{text(u.sel)[:60]}` has one row per {", ".join(free)} of {table}; whether two marks can sit on one ancestor chain is not decided: {stack[1]}')
+            ctx.bad('R7', cons, f'{r.name} evaluates `{text(u.sel)[:110]} ..` where MySQL requires a single value ({u.how}), but the query has one row per {", ".join(free)} of {table} '
+                    f'(alias {alias}) joined to {CANCEL_TABLE}, i.e. one row per CANCELLED ANCESTOR of the job\'s group: no key of {table} is pinned, no LIMIT 1 / aggregate / EXISTS. '
+                    f'{stack[1]}: the query then has two rows and the routine fails with ER_SUBQUERY_NO_1_ROW (1242) / ER_TOO_MANY_ROWS (1172) instead of answering - '
+                    f'for every job of g, including always-run jobs, every schedule / creating / started request errors', r.file, r.line_of(u.stmt),
+                    extra={'free_key_columns': list(free), 'table': table})
+
+
 def run(ctx: Ctx) -> None:
     ctx.explanation = 'Classification of every consultation of job_groups_cancelled, truth table of is_job_cancelled, guard dominance in the scheduling procedures and driver selections.'
     ctx.rule('R1', 'every lookup of job_groups_cancelled is the canonical ancestor walk on one subject, a root lookup at a batch-level site, or a listed reporting-only site', 24)
@@ -492,6 +588,7 @@ def run(ctx: Ctx) -> None:
     ctx.rule('R4', 'is_job_cancelled truth table; state := Running|Creating requires NOT cancelled for the same job; procedures always answer', 14)
     ctx.rule('R6', 'an accepted cancel request is always recorded: the mark depends only on not-already-cancelled; every cancel entry point reaches the CALL on every normal exit', 5)
     ctx.rule('R5', 'driver selections: scheduler and canceller filters on always_run / cancelled / group walk', 8)
+    ctx.rule('R7', 'single-value queries of the scheduling / creating / starting procedures yield at most one row under any combination of cancelled groups', 10)
     ctx.assume('job_group_self_and_ancestors contains exactly (group, ancestor) pairs including (g, g); maintained at group creation')
     prog = sf.load_program()
     r1(ctx, prog)
@@ -500,3 +597,4 @@ def run(ctx: Ctx) -> None:
     r4(ctx, prog)
     r5(ctx)
     r6(ctx, prog)
+    r7(ctx, prog)
